@@ -59,6 +59,14 @@ func vMakeAtomOperand(kind int, tag string) struct2 {
 		return struct2{src: string(d), canon: string(d)}
 	case 3:
 		return struct2{src: vWord(tag+"f", "upper") + "(" + vWord(tag+"a", "key") + ")", canon: "upper(KEY)"}
+	case 5: // field access chain on a call
+		t, b := vLit(tag+"s", 1, 1, vLitAlpha)
+		return struct2{src: vWord(tag+"f", "json") + "(" + vWord(tag+"a", "value") + ")[" + t + "][1]", canon: "json(VALUE)['" + string(b) + "'][1]"}
+	case 6: // call with several arguments, one of them a sub-expression
+		t, b := vLit(tag+"s", 1, 1, vLitAlpha)
+		return struct2{src: vWord(tag+"f", "substr") + "(" + vWord(tag+"a", "key") + " + " + t + ", 0, 1 + 2)", canon: "substr((KEY + '" + string(b) + "'), 0, (1 + 2))"}
+	case 7: // nested calls and a negated argument
+		return struct2{src: vWord(tag+"f", "upper") + "(" + vWord(tag+"g", "lower") + "(" + vWord(tag+"a", "key") + "))", canon: "upper(lower(KEY))"}
 	}
 	return struct2{src: vWord(tag, "value"), canon: "VALUE"}
 }
@@ -125,9 +133,9 @@ func VH_C15(m, variant, opsel int) {
 	ops := make([]int, 0, m+2)
 	operands := make([]struct2, 0, m+3)
 	nextOperand := func(i int) struct2 {
-		kind := i % 4
+		kind := (i * 3) % 8
 		if variant == 0 {
-			kind = vChoose("kind"+vItoa(i), 4)
+			kind = vChoose("kind"+vItoa(i), 8)
 		}
 		return vMakeAtomOperand(kind, "x"+vItoa(i))
 	}
